@@ -160,6 +160,41 @@ def ref_layer(d, prev):
         if len(fields) == 1:
             raise RErr('RuntimeError')
         return DS(fields, lambda: tuple(sorted(mapping())), value)
+    if k == 'split':
+        sp = d['split']
+        specs = d.get('fields', {})
+        inh = d.get('inherit')
+        memo = {}
+
+        def mapping():
+            if 'm' not in memo:
+                m = {}
+                for old in prev.ids():
+                    pairs = call_fn(sp, sp.get('f') or f'{d["cls"]}.__split__', [prev.value(a, old) for a in sp['args']])
+                    for new, part in (pairs or ()):
+                        if new in m:
+                            raise RErr('AssertionError')
+                        m[new] = (old, part)
+                memo['m'] = m
+            return memo['m']
+
+        def inherits(n):
+            return n not in specs and (inh is True or (isinstance(inh, list) and n in inh))
+        fields = ['id'] + list(specs) + [f for f in prev.fields if f != 'id' and inherits(f)]
+
+        def value(f, new):
+            if f == 'id':
+                return new
+            m = mapping()
+            if new not in m:
+                raise RErr('KeyError')
+            old, part = m[new]
+            if f in specs:
+                spec = specs[f]
+                args = [part if a == '__part__' else prev.value(a, old) for a in spec['args']]
+                return call_fn(spec, spec.get('f') or f'{d["cls"]}.{f}', args)
+            return prev.value(f, old)
+        return DS(fields, lambda: tuple(sorted(mapping())), value)
     if k == 'join':
         left, right = ref(d['left']), ref(d['right'])
         on, how = list(d['on']), d.get('how', 'inner')
@@ -309,7 +344,47 @@ def finish_pred(p, prev_ref):
 def gen_rel(rng, kind=None, depth=0, counter=None):
     """a dataset pipeline description with one dataset-wide operation on top (possibly nested)"""
     counter = counter if counter is not None else [0]
-    kind = kind or rng.choice(['merge', 'filter', 'check_ids', 'groupby', 'join'])
+    kind = kind or rng.choice(['merge', 'filter', 'check_ids', 'groupby', 'join', 'split'])
+    if kind == 'split':
+        base = gen_rel(rng, 'merge', depth + 1, counter) if rng.random() < 0.25 and depth == 0 else \
+            gen_dataset(rng, counter, list(dict.fromkeys(gen_ids(rng, 1)[0] + gen_ids(rng, 1)[0])), p_transform=0.2)
+        try:
+            base_ref = ref(base)
+        except RErr:
+            return base
+        fields = [f for f in base_ref.fields if f != 'id']
+        # the split function is a table over (id, key field): 0..3 parts per entry, sometimes colliding new ids
+        sargs = ['id'] + ([f for f in fields if f.startswith('k')][:1] if rng.random() < 0.5 else [])
+        collide = rng.random() < 0.12
+        table = []
+        seen_keys = set()
+        for i in UNIVERSE + FOREIGN:
+            try:
+                vals = [base_ref.value(a, i) for a in sargs]
+            except RErr:
+                continue
+            if repr(vals) in seen_keys:
+                continue
+            seen_keys.add(repr(vals))
+            nparts = rng.choice([0, 1, 1, 2, 3])
+            pairs = [[(f'{i}:{j}' if not (collide and rng.random() < 0.4) else 'dup'), j] for j in range(nparts)]
+            if collide and nparts >= 2 and rng.random() < 0.5:
+                pairs[1][0] = pairs[0][0]        # the same new id twice within one entry
+            table.append([vals, pairs])
+        counter[0] += 1
+        tf = {}
+        for f in rng.sample(fields, min(len(fields), rng.choice([1, 2]))):
+            tf[f] = {'args': [f, '__part__']}
+        d = {'k': 'split', 'cls': f'Sp{counter[0]}', 'split': {'args': sargs, 'table': table}, 'fields': tf, 'params': {},
+             'cargs': {}, 'defaults': {}}
+        r = rng.random()
+        if r < 0.4:
+            d['inherit'] = True
+        elif r < 0.6:
+            others = [f for f in fields if f not in tf]
+            if others:
+                d['inherit'] = rng.sample(others, 1)
+        return {'k': 'chain', 'flavour': 'chain', 'layers': [base, d]}
     if kind == 'merge':
         n = rng.choice([1, 2, 2, 3, 3, 4])
         id_lists = gen_ids(rng, n)
